@@ -108,6 +108,9 @@ func NewOwnershipSpecification(owner, group string) (*OwnershipSpecification, er
 func SetPermissionsByPath(path string, ownership *OwnershipSpecification, mode Mode) error {
 	// Set ownership information, if specified.
 	if ownership != nil && (ownership.ownerID != -1 || ownership.groupID != -1) {
+		if err := verifFault("chown", path); err != nil {
+			return fmt.Errorf("unable to set ownership information: %w", err)
+		}
 		if err := os.Chown(path, ownership.ownerID, ownership.groupID); err != nil {
 			return fmt.Errorf("unable to set ownership information: %w", err)
 		}
@@ -116,6 +119,9 @@ func SetPermissionsByPath(path string, ownership *OwnershipSpecification, mode M
 	// Set permissions, if specified.
 	mode = mode & ModePermissionsMask
 	if mode != 0 {
+		if err := verifFault("chmod", path); err != nil {
+			return fmt.Errorf("unable to set permission bits: %w", err)
+		}
 		if err := os.Chmod(path, os.FileMode(mode)); err != nil {
 			return fmt.Errorf("unable to set permission bits: %w", err)
 		}
